@@ -44,6 +44,7 @@ def setLeft (h : Heap) (p v : Nat) : Heap := { h with left := upd1 h.left p v }
 def setRight (h : Heap) (p v : Nat) : Heap := { h with right := upd1 h.right p v }
 def setHeight (h : Heap) (p v : Nat) : Heap := { h with height := upd1 h.height p v }
 def setSlope (h : Heap) (p : Nat) (v : Int) : Heap := { h with slope := upd1 h.slope p v }
+def setValue (h : Heap) (p : Nat) (v : Int) : Heap := { h with value := upd1 h.value p v }
 def setNext (h : Heap) (p v : Nat) : Heap := { h with next := upd1 h.next p v }
 def setPrev (h : Heap) (p v : Nat) : Heap := { h with prev := upd1 h.prev p v }
 
